@@ -58,8 +58,15 @@ def run_history(args, monitor_classes, res, weights=None, driver_kw=None, setup=
                 c = W.Col(hp, "plain", "tree")
                 c.subcols = {p for p in w.cols if p.startswith(hp) and p != hp}
                 w.cols[hp] = c
-            w.mkcol("/user/calendars/cal0/", "calendar")
-            w.mkcol("/user/contacts/ab0/", "addressbook")
+            # the ways a client can make a calendar / an address book (a plain collection typed afterwards included)
+            how = random.Random(hseed + 7).choice(["auto", "auto", "mkcol-ext", "mkcol-then-proppatch", "mkcol-then-proppatch", "mkcol-ext-rt-last"])
+            w.mkcol("/user/calendars/cal0/", "calendar", how=how)
+            res.count("cal0_created_by:" + how)
+            w.mkcol("/user/contacts/ab0/", "addressbook", how=random.Random(hseed + 8).choice(["auto", "auto", "mkcol-then-proppatch"]))
+            # a plain collection (type guessed from its members), half of the time with properties of its own
+            w.mkcol("/user/calendars/pl0/", "plain")
+            if random.Random(hseed + 9).random() < 0.6:
+                w.proppatch("/user/calendars/pl0/", sets=[(X.P_DISPLAYNAME, "plain with settings")])
             d.coln = 1
             if setup:
                 setup(w, d, rng)
